@@ -1028,12 +1028,14 @@ class Interp:
             res = self.ite(c, v, res)
         return res
 
-    def spec_bool(self, expr, st, extra=None, locals_visible=True):
+    def spec_bool(self, expr, st, extra=None, locals_visible=True, target=None, value=None):
         """boolean specification expression -> z3 formula (all paths merged)"""
         if isinstance(expr, str):
             expr = ast.parse(expr.strip(), mode='eval').body
         s0 = st.clone()
         base = len(s0.pc)
+        if target is not None:
+            self.assign_target(target, s0.map_value(value), s0)
         if extra:
             for k, v in extra.items():
                 s0.frame.vars[k] = s0.map_value(v) if not callable(v) or isinstance(v, (SFunc,)) else v
@@ -1079,6 +1081,9 @@ class Interp:
                 self.err(node, 'old() without an entry snapshot')
             yield self.spec_eval_with(node.args[0], st.old), st
             return
+        if src == 'next' and node.args and isinstance(node.args[0], ast.GeneratorExp) and not node.keywords:
+            yield from self.first_match(node, st)
+            return
         if src == 'super':
             f = st.frame
             selfv = f.vars.get('self')
@@ -1121,6 +1126,62 @@ class Interp:
                     else:
                         kwargs[k] = v
                 yield from self.call_value(fv, args, kwargs, s1, node)
+
+    def first_match(self, node, st):
+        """next((elt for x in seq if cond), default): first element of seq satisfying cond"""
+        ge = node.args[0]
+        if len(ge.generators) != 1:
+            self.err(node, 'nested generator in next()')
+        gen = ge.generators[0]
+        defaults = node.args[1:]
+        for it, s in self.eval(gen.iter, st):
+            if isinstance(it, Raised):
+                yield it, s
+                continue
+            for dv, s1 in self.eval_many(defaults, s):
+                if isinstance(dv, Raised):
+                    yield dv, s1
+                    continue
+                seq = self.as_sequence(it, node)
+                n = self.seq_len(seq)
+                cond_ast = ast.BoolOp(op=ast.And(), values=list(gen.ifs)) if len(gen.ifs) > 1 else \
+                    (gen.ifs[0] if gen.ifs else ast.Constant(value=True))
+                ast.fix_missing_locations(cond_ast)
+
+                def cond_at(j, s_):
+                    return mk_bool(self.spec_bool(cond_ast, s_, target=gen.target, value=self.seq_elem(seq, j)))
+                if not is_sym(n) and n <= 64 and all(not is_sym(cond_at(j, s1)) for j in range(n)):
+                    hit = None
+                    for j in range(n):
+                        if cond_at(j, s1):
+                            hit = j
+                            break
+                    if hit is None:
+                        if defaults:
+                            yield dv[0], s1
+                        else:
+                            yield self.raise_py(StopIteration), s1
+                    else:
+                        yield self.spec_eval_with(ge.elt, s1, gen.target, self.seq_elem(seq, hit)), s1
+                    continue
+                ctx = self.ctx
+                k = SNum(ctx.fresh_int('first'))
+                q = z3.Int(ctx.fresh_name('fq'))
+                found = SBool(ctx.fresh_bool('found'))
+                nz = zval(n)
+                cq = cond_at(SNum(q), s1)
+                none_before = z3.ForAll([q], z3.Implies(z3.And(q >= 0, q < k.t), z3.Not(zbool(cq))))
+                none_at_all = z3.ForAll([q], z3.Implies(z3.And(q >= 0, q < nz), z3.Not(zbool(cq))))
+                for side, s2 in self.fork(s1, found):
+                    if side:
+                        s2.assume(z3.And(k.t >= 0, k.t < nz, zbool(cond_at(k, s2)), none_before))
+                        yield self.spec_eval_with(ge.elt, s2, gen.target, self.seq_elem(seq, k)), s2
+                    else:
+                        s2.assume(none_at_all)
+                        if defaults:
+                            yield dv[0], s2
+                        else:
+                            yield self.raise_py(StopIteration), s2
 
     def call_dunder(self, o, name, args, st, node):
         try:
@@ -1298,6 +1359,23 @@ class Interp:
             yield self.raise_py(e.cls, e.msg), st
             return
         self.ctx.functions_inlined[info.key] += 1
+        c = self.contracts.get(info.key)
+        if c is not None and c.requires and not self.ctx.spec_depth and not self.ctx.concrete_math \
+                and not (self.active_contract is not None and c.key == self.active_contract.key
+                         and self.call_depth == 0):
+            # inlined callee that has a contract: its preconditions are proved here and may be relied
+            # upon by the loop invariants inside its body
+            f = st.push(info)
+            f.vars.update(env)
+            line = getattr(node, 'lineno', 0)
+            caller = st.frames[st.stack[-2]].finfo.qualname if len(st.stack) > 1 else '?'
+            for cl in c.requires:
+                goal = self.spec_bool(cl.src, st)
+                self.ctx.oblige(st, f'{caller}#pre@callsite:{info.qualname}@L{line}:{cl.label}', 'pre@callsite',
+                                'route', goal, line, note=cl.src)
+                st.assume(goal)
+            st.pop()
+            del st.frames[f.fid]
         yield from self.run_body(info, env, st, parent=None)
 
     def call_closure(self, fn, args, kwargs, st, node):
